@@ -228,7 +228,7 @@ func g5SameFile(r *Repo, rep *Report) {
 
 // g4ChangedReset: the rewrite guard is reset for every file: no `guard = true` of one iteration can reach the
 // `if guard` of a later iteration without passing a `guard = false`.
-func g4ChangedReset(r *Repo, rep *Report, fi *FuncInfo, g *Graph, guard types.Object, guardIf *ast.IfStmt) {
+func g4ChangedReset(r *Repo, rep *Report, fi *FuncInfo, g *Graph, guard types.Object, gb *cfg.Block) {
 	info := fi.Pkg.TypesInfo
 	isStore := func(b *cfg.Block, val bool) bool {
 		return blockHas(b, func(n ast.Node) bool {
@@ -249,8 +249,7 @@ func g4ChangedReset(r *Repo, rep *Report, fi *FuncInfo, g *Graph, guard types.Ob
 			return false
 		})
 	}
-	gb, _ := g.locate(guardIf.Cond.Pos())
-	if gb == nil {
+	if gb == nil || len(gb.Nodes) == 0 {
 		return
 	}
 	var trues []*cfg.Block
@@ -262,7 +261,7 @@ func g4ChangedReset(r *Repo, rep *Report, fi *FuncInfo, g *Graph, guard types.Ob
 	// paths from after the guard block (i.e. into later iterations) back to the guard without a reset
 	reach := g.reachable(gb.Succs, func(b *cfg.Block) bool { return isStore(b, false) })
 	if reach[gb] && len(trues) > 0 {
-		rep.fail(Finding{Rule: "G4", Key: "G4|changed-not-reset", Where: []string{r.pos(guardIf.Pos())},
+		rep.fail(Finding{Rule: "G4", Key: "G4|changed-not-reset", Where: []string{r.pos(gb.Nodes[len(gb.Nodes)-1].Pos())},
 			Msg: "newPackage: the rewrite guard `" + guard.Name() + "` is not reset for each file: once one file had a renamed call, every later file of the package is rewritten too"})
 	} else {
 		rep.pass("G4")
